@@ -3,6 +3,9 @@
 # output is grouped per patch (one header line, failing obligations indented below it) and sorted by id.
 root=${1:-/verif/seeded}; P=${2:-6}; BIN=${3:-/verif/bin/sftpcheck}
 T=$(mktemp -d /var/tmp/parm.XXXXXX)
+# every private copy leaves its own entries in the Go build cache (about 45 MB each): a cache of its own, removed at the end
+export GOCACHE=$(mktemp -d /var/tmp/gocache.XXXXXX)
 ls -d $root/C*/ | sed 's#/$##' | xargs -P $P -I{} sh -c "/verif/tools/par_one.sh {} $BIN > $T/\$(basename {}).out 2>&1"
 for f in $(ls $T | sort -V); do cat $T/$f; done
 rm -rf $T
+chmod -R u+w $GOCACHE 2>/dev/null; rm -rf $GOCACHE
